@@ -241,14 +241,13 @@ def mat_probe_ok(shape, w, a, b):
 
 
 def mat_ref(t):
-    """(verdict, (Rows, Columns) after the history, zero_row_result): zero_row_result = the object is the result of a sum or a transposition
-    that has no rows but columns (region of known finding K-C10-1)"""
+    """(verdict, (Rows, Columns) after the history, zero_row_result): zero_row_result = the history contains a sum or a transposition whose
+    result has no rows but columns (region of known finding K-C10-1; the process may have ended at any request after that one)"""
     shape = (int(t[1]), int(t[2])); n = int(t[3]); pos = 4; zr = False
     for _ in range(n):
         w = t[pos]; k = MAT_OP_ARGS[w]; a = int(t[pos + 1]) if k >= 1 else 0; b = int(t[pos + 2]) if k >= 2 else 0; pos += 1 + k
         nxt = mat_apply(shape, w, a, b)
         if nxt is None or nxt is False: return nxt, None, zr
-        if w in ("resize", "assign", "set"): zr = False       # a fresh table of rows; every other member function works on the object as it is
         if w in ("sum", "transp") and nxt[0] == 0 and nxt[1] > 0: zr = True
         shape = nxt
     w = t[pos]; k = MAT_PROBE_ARGS[w]; a = int(t[pos + 1]) if k >= 1 else 0; b = int(t[pos + 2]) if k >= 2 else 0
